@@ -12,6 +12,9 @@ Two mechanisms, per function:
     block (enclosed and trailing rules).  proofs/NglobProofs.v proves that the printer of
     lib/Regex.v applied to the model's fragments yields exactly these texts.
   - re.escape: the set of code points it escapes, measured on the running interpreter.
+  - the flags of the three re.compile sites of the regex (NamedGlob._default_regex,
+    Workflow.matches_any_glob, Workflow._raise_if_glob_match: all re.DOTALL or all none) and the
+    candidate loop of NamedGlob.glob() (compared verbatim with its known shapes).
 
 * STRUCTURAL FINGERPRINT (sha256 of ast.dump without docstrings), compared in
   proofs/NglobProofs.v with a committed golden value, so that ANY edit of the function breaks an
@@ -284,6 +287,62 @@ def translate_conv_regex():
     return out
 
 
+def translate_compile_flags():
+    """The flags of every re.compile applied to a named-glob regex (three sites)."""
+    sites = [
+        (NGLOB, "_default_regex", "NamedGlob"),
+        ("stepup/core/workflow.py", "matches_any_glob", "Workflow"),
+        ("stepup/core/workflow.py", "_raise_if_glob_match", "Workflow"),
+    ]
+    flags = []
+    for rel, name, cls in sites:
+        fn = find_function(parse_module(rel), name, cls)
+        calls = [n for n in ast.walk(fn) if isinstance(n, ast.Call) and isinstance(n.func, ast.Attribute)
+                 and n.func.attr == "compile" and _is_name(n.func.value, "re")]
+        if len(calls) != 1:
+            raise TranslatorError(f"{rel}:{name}: expected exactly one re.compile call, found {len(calls)}")
+        c = calls[0]
+        if c.keywords or len(c.args) not in (1, 2):
+            raise TranslatorError(f"{rel}:{name}: unexpected re.compile arguments: {ast.unparse(c)}")
+        first = ast.unparse(c.args[0])
+        if first not in ("regex", "convert_nglob_to_regex(self._pattern, self._subs)"):
+            raise TranslatorError(f"{rel}:{name}: re.compile is not applied to the named-glob regex: {first}")
+        if len(c.args) == 1:
+            flags.append(False)
+        elif ast.unparse(c.args[1]) == "re.DOTALL":
+            flags.append(True)
+        else:
+            raise TranslatorError(f"{rel}:{name}: unrecognised regex flags: {ast.unparse(c.args[1])}")
+    if len(set(flags)) != 1:
+        raise TranslatorError(f"the compile sites of the named-glob regex use different flags: {flags}")
+    return flags[0]
+
+
+GLOB_BODY_FILTERED = (
+    "paths = []\n"
+    "for path in glob.iglob(self._glob_pattern, recursive=True, include_hidden=True):\n"
+    "    path = Path(path)\n"
+    "    if path.is_dir():\n"
+    "        path = path / ''\n"
+    "    elif path.endswith('/'):\n"
+    "        continue\n"
+    "    paths.append(path)\n"
+    "self.extend(paths)"
+)
+GLOB_BODY_UNFILTERED = GLOB_BODY_FILTERED.replace("    elif path.endswith('/'):\n        continue\n", "")
+
+
+def translate_glob_method():
+    """NamedGlob.glob(): the candidate loop, compared verbatim with its two known shapes."""
+    fn = find_function(parse_module(NGLOB), "glob", "NamedGlob")
+    src = "\n".join(ast.unparse(s) for s in body_without_docstring(fn))
+    if src == GLOB_BODY_FILTERED:
+        return True
+    if src == GLOB_BODY_UNFILTERED:
+        return False
+    raise TranslatorError("NamedGlob.glob(): body changed")
+
+
 def measure_re_escape():
     """Code points that re.escape prefixes with a backslash (and check that it does nothing else)."""
     specials = []
@@ -301,6 +360,8 @@ def generate():
     parts, text, flags = translate_wild_parts()
     cr = translate_conv_regex()
     specials = measure_re_escape()
+    dotall = translate_compile_flags()
+    glob_filters = translate_glob_method()
     fps = [(key, fingerprint(rel, name, cls)) for key, rel, name, cls in FINGERPRINTED]
 
     def sl(xs):
@@ -340,6 +401,9 @@ def generate():
         f"Definition gen_post_trail_plus : str := {coq_str(cr['post']['trail_plus'])}.",
         f"Definition gen_post_trail_grp : str := {coq_str(cr['post']['trail_grp'])}.",
         f"Definition gen_post_optslash : str := {coq_str(cr['post']['optslash'])}.",
+        "(* re.DOTALL at every compile site of the regex; NamedGlob.glob() skips 'prefix/' non-directories *)",
+        f"Definition gen_compile_dotall : bool := {'true' if dotall else 'false'}.",
+        f"Definition gen_glob_skips_nondir_slash : bool := {'true' if glob_filters else 'false'}.",
         "(* code points escaped by re.escape on this interpreter *)",
         "Definition gen_escape_specials : list N := [" + "; ".join(str(c) for c in specials) + "].",
         "(* structural fingerprints (sha256 of ast.dump without docstrings, first 32 hex digits) *)",
@@ -349,7 +413,8 @@ def generate():
     lines.append("Definition gen_fingerprints : list str := [" + "; ".join(f"gen_fp_{k}" for k, _ in fps) + "].")
     lines.append("")
     facts = {"wild_parts": parts, "any_wild": text, "flags": flags, "conv_regex": cr,
-             "escape_specials": specials, "fingerprints": dict(fps)}
+             "escape_specials": specials, "fingerprints": dict(fps), "dotall": dotall,
+             "glob_skips_nondir_slash": glob_filters}
     return "\n".join(lines), facts
 
 
